@@ -174,17 +174,17 @@ func (t *Term) render() string {
 	case "zero":
 		return "zero"
 	case "deref":
-		return t.Args[0].String()
+		return "*" + t.Args[0].String()
 	case "field":
-		return t.Args[0].String() + "." + t.Name
+		return baseStr(t.Args[0]) + "." + t.Name
 	case "index":
-		return t.Args[0].String() + "[" + t.Args[1].String() + "]"
+		return baseStr(t.Args[0]) + "[" + t.Args[1].String() + "]"
 	case "lookup":
-		return t.Args[0].String() + "[" + t.Args[1].String() + "]"
+		return baseStr(t.Args[0]) + "[" + t.Args[1].String() + "]"
 	case "lookupok":
-		return "has(" + t.Args[0].String() + "," + t.Args[1].String() + ")"
+		return "has(" + baseStr(t.Args[0]) + "," + t.Args[1].String() + ")"
 	case "len":
-		return "len(" + t.Args[0].String() + ")"
+		return "len(" + baseStr(t.Args[0]) + ")"
 	case "call":
 		as := make([]string, len(t.Args))
 		for i, a := range t.Args {
@@ -272,16 +272,28 @@ func (t *Term) render() string {
 		return "append(" + strings.Join(parts, ",") + ")"
 	case "slice":
 		parts := []string{}
-		for _, a := range t.Args[1:] {
+		as := t.Args[1:]
+		if len(as) == 3 && as[2] == nil {
+			as = as[:2]
+		}
+		for _, a := range as {
 			if a == nil {
 				parts = append(parts, "")
 			} else {
 				parts = append(parts, a.String())
 			}
 		}
-		return t.Args[0].String() + "[" + strings.Join(parts, ":") + "]"
+		return baseStr(t.Args[0]) + "[" + strings.Join(parts, ":") + "]"
 	}
 	return t.Op + "?"
+}
+
+// baseStr: selectors apply through pointers implicitly, as in Go source (u.devices, not (*u).devices).
+func baseStr(t *Term) string {
+	if t.Op == "deref" {
+		return t.Args[0].String()
+	}
+	return t.String()
 }
 
 func typeName(t types.Type) string {
